@@ -49,13 +49,28 @@ def norm_lazy(d):
         for c in ch or []:
             c["content"] = re.sub(r"\n +", "\n", c["content"])
             if c["type"] == "code_inline":
-                c["content"] = re.sub(r" +", " ", c["content"])
+                # a code span continued on a lazy line: the kept leading spaces join the span's blank runs, and the one-space
+                # padding rule then strips differently ("\n|\n" -> "|", "\n   |\n   " -> "   |   ")
+                c["content"] = re.sub(r" +", " ", c["content"]).strip(" ")
             for k, v in list(c["attrs"].items()):
                 if isinstance(v, str):
                     c["attrs"][k] = re.sub(r"\n +", "\n", v)
             fix(c.get("children"))
     fix(d.get("children"))
     return d
+
+
+def norm_env(env):
+    """a definition title continued on a lazy line keeps that line's leading spaces (same allowance as for inline content)"""
+    out = {}
+    for k, v in env.items():
+        if k == "references":
+            out[k] = {lab: dict(r, title=re.sub(r"\n +", "\n", r.get("title", ""))) for lab, r in v.items()}
+        elif k == "duplicate_refs":
+            out[k] = [dict(r, title=re.sub(r"\n +", "\n", r.get("title", ""))) for r in v]
+        else:
+            out[k] = v
+    return out
 
 
 def dump(toks, dlevel=0, lazy=False):
@@ -107,7 +122,7 @@ def item_law(md, M, X, ctx=None):
     d = first_diff(a, b)
     if d:
         return "item:contents-differ", d
-    if e1 != e2:
+    if norm_env(e1) != norm_env(e2):
         return "item:env-differs", f"{e1!r} vs {e2!r}"[:300]
     return None
 
